@@ -108,9 +108,11 @@ def count_runs(data):
 def run(ctx):
     import fickling.fickle as fk
     sys.path.insert(0, os.path.join(ROOT, "harness", "natmods"))
-    n = 2 if ctx.quick else 3
+    n = 3
     cfg = open(os.path.join(tlc.SPEC, "Cli.cfg.tmpl")).read().replace("@N@", str(n))
     cases = tv.generate(ctx, "Cli", cfg, "CASE", workers=4, name=f"gen:Cli:n{n}")
+    if ctx.quick:       # all stacks of 1-2, a seeded sample of the stacks of 3
+        cases = [c for i, c in enumerate(cases) if c["n"] < 3 or (i + ctx.seed) % 12 == 0]
     recs = []
     stdin_budget = 40 if ctx.quick else 10 ** 9
     order = list(range(len(cases)))
